@@ -161,3 +161,33 @@ pub fn crosses_boundary(ops: &[Op], layers: u8) -> bool {
         || interleaved
         || files >= 2
 }
+
+/// An archive (two files, the first spanning more than one compression block) whose FIRST compressed
+/// block ends `residue` bytes after an encryption chunk boundary when compression is on: the first file is
+/// zeros followed by incompressible bytes, the number of zeros tuned on the compress-only twin until its
+/// sizes table shows the wanted residue (the compressed stream is the same under encryption).  This is the
+/// coincidence at which a reader that assumes "the inner layer stands at the start of the next block"
+/// after a block was read to its end is wrong; random generation does not produce it at production
+/// constants (1 in 131072).  Returns the ops (use them with compression level 5).
+pub fn aligned_ops(rng: &mut Rng, residue: usize) -> Option<Vec<Op>> {
+    let (b, c) = (CONSTS.block, CONSTS.chunk);
+    let random = rng.bytes(b + b / 2 + 11, 3);
+    let small = rng.bytes(300.min(b), 2);
+    let cfg = Cfg { layers: L_COMP, level: 5, recipients: vec![], reader: 0 };
+    let mut z = if b > 2 * c { c + 3 } else { b / 4 };
+    for _ in 0..14 {
+        let mut data = vec![0u8; z];
+        data.extend_from_slice(&random[z..]);
+        let ops = vec![Op::Add { name: "a".into(), size: data.len() as u64, src: data }, Op::Add { name: "b".into(), size: small.len() as u64, src: small.clone() }, Op::Finalize];
+        let built = build(&cfg, &ops);
+        let comp = &built.bytes[9..];
+        let pos = comp.len().checked_sub(4)?;
+        let len = u32::from_le_bytes(comp[pos..].try_into().ok()?) as usize;
+        if len > pos || len < 12 { return None; }
+        let s0 = u32::from_le_bytes(comp[pos - len + 8..pos - len + 12].try_into().ok()?) as usize;
+        if s0 % c == residue % c { return Some(ops); }
+        let d = (s0 + c - residue % c) % c;
+        z = if z + d < b - 64 { z + d } else if z >= c - d { z - (c - d) } else { return None };
+    }
+    None
+}
